@@ -97,7 +97,8 @@ def describe(tier):
             "%s x method-name arguments %s; real objects %s with names %s"
             % (plan, ch.ACCS, ch.POST_SINGLE,
                "{1..n+1, 1000, None}" if d["full_kinds"] else "{1, None}", ch.COMPANION,
-               "all 3^9" if d["full_kinds"] else "2^9 + 9*2^8 (at most one non-callable attribute)",
+               ("all 3^9" if d["full_kinds"] else "2^9 + 9*2^8 (at most one non-callable attribute)")
+               + " plus 2^9 kinds that are false in a boolean context",
                ad.NAMES, ad.ADAPTERS, ad.NAME_ARGS, ad.OBJECT_NAMES, ad.OBJECT_NAME_ARGS))
 
 
@@ -146,6 +147,8 @@ def shards(tier):
     for s0 in (0, 1, 2):
         for s1 in (0, 1, 2):
             out.append({"kind": "adapters", "s0": s0, "s1": s1})
+    for s0 in (0, 1):
+        out.append({"kind": "adapters", "s0": s0, "falsy": True})
     out.append({"kind": "objects"})
     return out
 
@@ -232,8 +235,10 @@ def check_adapter(res, adapter, elspec, args):
             elkind = elspec
         else:
             # which of the attributes the docstrings speak about are methods
-            elkind = [n for n, s in zip(ad.NAMES, elspec) if s == 1 and n != "custom"]
+            states = elspec["states"] if isinstance(elspec, dict) else elspec
+            elkind = [n for n, s in zip(ad.NAMES, states) if s == 1 and n != "custom"]
         cause = {"law": "adapter-" + j["verdict"], "adapter": adapter,
+                 "falsy_element": isinstance(elspec, dict) and bool(elspec.get("falsy")),
                  "method_name": "default" if default else "given",
                  "readings": j["readings"], "element": elkind,
                  "observed": j["observed"] if j["verdict"] == "construct" else "behaviour differs"}
@@ -242,6 +247,16 @@ def check_adapter(res, adapter, elspec, args):
 
 
 def run_adapters(res, p, tier):
+    if p.get("falsy"):
+        # the same table for elements that are false in a boolean context (methods present or absent)
+        for states in itertools.product((0, 1), repeat=len(ad.NAMES)):
+            if states[0] != p["s0"]:
+                continue
+            for adapter in ad.ADAPTERS:
+                for args in ad.arg_lists(adapter, ad.NAME_ARGS):
+                    case = check_adapter(res, adapter, {"states": list(states), "falsy": True}, args)
+            res.sample(case, 3)
+        return
     for states in _kinds(tier):
         if states[0] != p["s0"] or states[1] != p["s1"]:
             continue
